@@ -317,4 +317,76 @@ def readBytes (b : Bytes) (n : Nat) : Res (Bytes × Bytes) :=
     let bs := (next b n).1
     if bs.length < n then .error .eof else .ok (bs, (next b n).2)
 
+/-! ## additions for the NetFlow v9 / IPFIX wire decoder (NetflowDecT.lean) -/
+
+/-- `make([]T, n)` and `s[i] = v` on a slice of structs with a signed `int` (the `Int` flavour): negative panics -/
+def makeLI {α : Type} (n : Int) (zero : α) : Res (List α) :=
+  if n < 0 then .error .panic else .ok (List.replicate n.toNat zero)
+def setIdxLI {α : Type} (l : List α) (i : Int) (v : α) : Res (List α) :=
+  if i < 0 then .error .panic else setIdxL l i.toNat v
+
+def idxLI {α : Type} (l : List α) (i : Int) : Res α := if i < 0 then .error .panic else idxL l i.toNat
+
+/-! ### a function whose error the caller inspects (DecodeMessageCommonFlowSet, DecodeMessageCommon): the error is a
+    value in the result; `Except.error` is left for panics and loops out of fuel -/
+
+/-- a checked call `x, err := f(…); if err != nil { return … }` of a translated function whose Go error is
+    `Except.error`: the handler gets the error, a panic / a loop out of fuel is not an error value and goes on up -/
+def tryCatch {α β : Type} (r : Res α) (onErr : Err → Res β) (k : α → Res β) : Res β :=
+  match r with
+  | .ok a => k a
+  | .error .panic => .error .panic
+  | .error .diverge => .error .diverge
+  | .error e => onErr e
+
+/-- `if err != nil { return … }` on an error that is a value -/
+def ifErr {β : Type} (e : Error) (onErr : Err → Res β) (k : Unit → Res β) : Res β :=
+  match e with
+  | some x => onErr x
+  | none => k ()
+
+/-- `errors.Is(err, sentinel)` on error classes (the wrappers the decoders use have `Unwrap`) -/
+def errIs (e : Error) (cls : Err) : Bool := e == some cls
+
+/-- `errors.Join(a, b)`: nil when both are; one class when the parts agree. A join of two different classes answers
+    `errors.Is` for both, which a single class cannot say: it is `bad` here (the decoder only ever joins
+    template-not-found errors). -/
+def errJoin (a b : Error) : Error :=
+  match a, b with
+  | none, b => b
+  | a, none => a
+  | some x, some y => if x = y then some x else some .bad
+
+/-- `uintN(x)` for a signed `int` x: wraps (two's complement) -/
+def u8OfInt (i : Int) : UInt8 := UInt8.ofNat (i % 256).toNat
+def u16OfInt (i : Int) : UInt16 := UInt16.ofNat (i % 65536).toNat
+def u32OfInt (i : Int) : UInt32 := UInt32.ofNat (i % 4294967296).toNat
+def u64OfInt (i : Int) : UInt64 := UInt64.ofNat (i % 18446744073709551616).toNat
+
+/-- `payload.Next(n)` with a signed `int`: a negative n panics (slice bounds out of range) -/
+def nextI (b : Bytes) (n : Int) : Res (Bytes × Bytes) := if n < 0 then .error .panic else .ok (next b n.toNat)
+
+/-- `NetFlowTemplateSystem`: the nil interface, or the template store of decoders/netflow/templates.go
+    (BasicTemplateSystem: a map from `templateKey(version, obsDomainId, templateId)` to what was added last), generic in
+    what is stored. A method call on the nil interface panics. -/
+abbrev TemplateSystem (T : Type) := Option (List (Nat × T))
+
+/-- `templateKey`: (version << 48) | (obsDomainId << 16) | templateId -/
+def tsKey (version : UInt16) (dom : UInt32) (id : UInt16) : Nat := version.toNat * 2 ^ 48 + dom.toNat * 2 ^ 16 + id.toNat
+
+/-- `templates.AddTemplate(version, obsDomainId, templateId, template)`: the store afterwards and the (nil) error -/
+def tsAdd {T : Type} (ts : TemplateSystem T) (version : UInt16) (dom : UInt32) (id : UInt16) (t : T) : Res (TemplateSystem T × Error) :=
+  match ts with
+  | none => .error .panic
+  | some s => .ok (some ((tsKey version dom id, t) :: s.filter (fun e => e.1 != tsKey version dom id)), none)
+
+/-- `templates.GetTemplate(version, obsDomainId, templateId)`: (template, nil) or (nil, ErrorTemplateNotFound) -/
+def tsGet {T : Type} (nil : T) (ts : TemplateSystem T) (version : UInt16) (dom : UInt32) (id : UInt16) : Res (T × Error) :=
+  match ts with
+  | none => .error .panic
+  | some s =>
+    match s.lookup (tsKey version dom id) with
+    | some t => .ok (t, none)
+    | none => .ok (nil, some .tnf)
+
 end Goflow.Go
